@@ -185,7 +185,7 @@ CLAIMS["C13"] = dict(
 
 CLAIMS["C04"].update(
     category="proof",
-    text="33 Lean theorems. 24 for ALL states of the kernel model (not only reachable ones): "
+    text="44 Lean theorems. 24 for ALL states of the kernel model (not only reachable ones): "
          "_effectively_cancelled equals its declarative reading (first cancelled scope on the chain before "
          "any shield), shields block, monotonicity; _parent_cancellation_is_visible characterised; "
          "CancelScope.__exit__ swallows / re-raises the remainder / passes exactly according to "
@@ -198,7 +198,14 @@ CLAIMS["C04"].update(
          "cancelled scope o changes only tasks sitting in a scope that is effectively cancelled, that lies "
          "in o's subtree with no shield and no other cancelled scope in between (C04_deliver_sound, "
          "_subtree, _shield_blocks_delivery); every other task's record is untouched by the whole "
-         "callback (C04_deliver_contained, _contained_step over Reach). Trace validation of every delivery "
+         "callback (C04_deliver_contained, _contained_step over Reach). Who can cancel a scope (Props/C04causes.lean): over every "
+         "reachable state, a step that turns cancel_called from false to true is one of eleven listed "
+         "transitions (explicit cancel, the deadline timer / setter / entry with a due deadline, the body's "
+         "exception at __aexit__, a child's failure or cancellation in the done-callback while the group scope "
+         "is not effectively cancelled, the host cancelled in __aexit__'s wait, start()'s caller failing, "
+         "TaskHandle.cancel) and cancel_called never goes back (C04_cancel_causes, _is_monotone); in particular "
+         "a child's done-callback cancels nothing when the group scope is already effectively cancelled "
+         "(C04_task_done_no_recancel - the clause seeded change C04_4 breaks). Trace validation of every delivery "
          "against the model and the oracle's reference semantics tie this to the code.",
     technique="Lean 4 proofs about the kernel model's CancelScope functions + trace validation + reference oracle")
 CLAIMS["C06"].update(
